@@ -45,6 +45,7 @@ Ref(cfg) ==
             [] cfg.shape = "fan3" -> IF cfg.dup THEN FAILED ELSE {<<N[2].n, v \o M(1) \o M(2)>>, <<N[3].n, v \o M(1) \o M(3)>>}
             [] cfg.shape = "fank" -> {<<N[i].n, v \o M(i)>> : i \in 1..Len(N)}      \* k parallel nodes with output keys joined at END
             [] cfg.shape = "fmap" -> Str(v \o M(1) \o M(2))                        \* producer {x: v, y: marker} field-mapped into the consumer
+            [] cfg.shape \in {"nmap", "nmapn"} -> Str(v \o M(1) \o M(2))             \* a -> named map type {x: v, y: marker} -> b joins it
             [] cfg.shape = "branch" -> Str(v \o M(1) \o Mark(NodeByName(cfg, cfg.pick)))
             [] cfg.shape = "keys" -> {<<"out", v \o Cat([i \in 1..Len(N) |-> M(i)])>>}
 
